@@ -348,14 +348,14 @@ pub fn c20_different_order_adjacency_map_n2_n3() {
 
 // @verif prop=C20 tier=quick fl=f0 role=clone/matrix t=1200 mem=12
 #[cfg_attr(kani, kani::proof)]
-#[cfg_attr(kani, kani::unwind(5))]
+#[cfg_attr(kani, kani::unwind(8))]
 pub fn c20_clone_matrix_n3() {
     clone_independent::<AdjacencyMatrix, 3>();
 }
 
 // @verif prop=C20 tier=quick fl=f2 role=clone/adjacency-list t=1200 mem=12
 #[cfg_attr(kani, kani::proof)]
-#[cfg_attr(kani, kani::unwind(5))]
+#[cfg_attr(kani, kani::unwind(8))]
 pub fn c20_clone_adjacency_list_n3() {
     clone_independent::<AdjacencyList, 3>();
 }
@@ -369,7 +369,7 @@ pub fn c20_clone_adjacency_map_n3() {
 
 // @verif prop=C20 tier=thorough fl=f1 role=clone/edge-list t=1800 mem=16
 #[cfg_attr(kani, kani::proof)]
-#[cfg_attr(kani, kani::unwind(5))]
+#[cfg_attr(kani, kani::unwind(8))]
 pub fn c20_clone_edge_list_n3() {
     clone_independent::<EdgeList, 3>();
 }
